@@ -145,21 +145,33 @@ def ebpps(facts):
         return [ob("ebpps.update", "ebpps_sketch::internal_update:anchor", "", "unrecognised", "internal_update not found", "")]
     _weight_guard(fn, out, "ebpps.update", "ebpps_sketch::internal_update")
     t = [_t(s) for s in stmts_of(fn["body"])]
-    want_decl = ["new_cum_wt=(cumulative_wt_+weight)", "new_wt_max=max(wt_max_,weight)", "new_rho=min((1.0/new_wt_max),(k_/new_cum_wt))"]
-    alt = [w.replace("1.0", "1") for w in want_decl]
-    ok = all((w in t) or (a in t) for w, a in zip(want_decl, alt))
-    out.append(ob("ebpps.update", "ebpps_sketch::internal_update:closed-forms", fn["pat"], "discharged" if ok else "violated", "new cumulative weight, new maximum weight and rho = min(1 / wt_max, k / cum_wt) are computed from the old state and the weight" if ok else "the closed forms changed: %s" % [x for x in t if x.startswith("new_")], fn["qname"]))
-    want_st = ["(cumulative_wt_=new_cum_wt)", "(wt_max_=new_wt_max)", "(rho_=new_rho)", "++n_"]
-    ok = all(w in t for w in want_st)
-    out.append(ob("ebpps.update", "ebpps_sketch::internal_update:state-stored", fn["pat"], "discharged" if ok else "violated", "cumulative weight, maximum weight, rho and n are stored unconditionally" if ok else "not all of %s are executed unconditionally at top level (%s)" % (want_st, [x for x in t if "_=" in x or "n_" in x]), fn["qname"]))
-    ok = "sample_.merge(tmp_)" in t and any(x.startswith("tmp_.replace_content(") and x.endswith(",(new_rho*weight))") for x in t) and any(x == "if(cumulative_wt_>0.0)" or x == "if(cumulative_wt_>0)" for x in t)
-    out.append(ob("ebpps.update", "ebpps_sketch::internal_update:sample-step", fn["pat"], "discharged" if ok else "violated", "existing sample is down-sampled by new_rho / rho_ (when non-empty), the new item enters with probability mass new_rho * weight" if ok else "sample step changed: %s" % t, fn["qname"]))
+    inl = {d: v["init"] for d, v in local_decls(fn).items() if v.get("init") is not None and v.get("const")}
+    stored = {}
+    for st_ in stmts_of(fn["body"]):
+        if st_.get("k") == "Expr":
+            e = strip(st_["e"])
+            if e.get("k") == "Assign" and e.get("op") == "=" and is_this_field(e["l"]):
+                stored[strip(e["l"])["f"]] = txt(e["r"], inl).replace(" ", "").replace("1.0", "1")
+    want = {"cumulative_wt_": "(cumulative_wt_+weight)", "wt_max_": "max(wt_max_,weight)", "rho_": "min((1/max(wt_max_,weight)),(k_/(cumulative_wt_+weight)))"}
+    bad = {k: stored.get(k) for k, v in want.items() if stored.get(k) != v}
+    out.append(ob("ebpps.update", "ebpps_sketch::internal_update:closed-forms", fn["pat"], "discharged" if not bad else "violated", "stored unconditionally: cumulative_wt_ + weight, max(wt_max_, weight), rho = min(1 / new wt_max, k_ / new cumulative weight)" if not bad else "the values stored at the end of the update are %s, expected %s" % (bad, {k: want[k] for k in bad}), fn["qname"]))
+    ok = "++n_" in t or "n_++" in t
+    out.append(ob("ebpps.update", "ebpps_sketch::internal_update:state-stored", fn["pat"], "discharged" if ok else "violated", "n_ is incremented unconditionally for every accepted item" if ok else "n_ is not incremented unconditionally at top level", fn["qname"]))
+    repl = [txt(strip_all(s_["e"])["args"][1], inl).replace(" ", "").replace("1.0", "1") for s_ in stmts_of(fn["body"]) if s_.get("k") == "Expr" and strip_all(s_["e"]).get("k") == "Call" and strip_all(s_["e"]).get("cname") == "replace_content" and len(strip_all(s_["e"]).get("args", [])) == 2]
+    ok = "sample_.merge(tmp_)" in t and repl == ["(min((1/max(wt_max_,weight)),(k_/(cumulative_wt_+weight)))*weight)"] and any(x in ("if(cumulative_wt_>0.0)", "if(cumulative_wt_>0)") for x in t)
+    out.append(ob("ebpps.update", "ebpps_sketch::internal_update:sample-step", fn["pat"], "discharged" if ok else "violated", "existing sample is down-sampled (when non-empty), the new item enters with probability mass new_rho * weight" if ok else "sample step changed: %s / %s" % (repl, t), fn["qname"]))
     fn = _fn(fs, R, "internal_merge")
     if fn is not None:
-        t = [_t(s) for s in stmts_of(fn["body"])]
-        need = {"final cumulative weight": ("final_cum_wt=(cumulative_wt_+sk.cumulative_wt_)", "(cumulative_wt_=final_cum_wt)"), "maximum weight": ("new_wt_max=max(wt_max_,sk.wt_max_)", "(wt_max_=new_wt_max)"), "n": ("new_n=(n_+sk.n_)", "(n_=new_n)"), "smaller k": ("(k_=min(k_,sk.k_))",)}
-        missing = [k for k, v in need.items() if not all(x in t for x in v)]
-        out.append(ob("ebpps.merge", "ebpps_sketch::internal_merge:accounting", fn["pat"], "discharged" if not missing else "violated", "merge adds n and cumulative weight, keeps the larger maximum weight and the smaller k" if not missing else "merge does not compute and store %s: c = min(k, cumulative weight / maximum weight) no longer holds after the merge" % ", ".join(missing), fn["qname"]))
+        inl = {d: v["init"] for d, v in local_decls(fn).items() if v.get("init") is not None and v.get("const")}
+        last = {}
+        for st_ in stmts_of(fn["body"]):
+            if st_.get("k") == "Expr":
+                e = strip(st_["e"])
+                if e.get("k") == "Assign" and e.get("op") == "=" and is_this_field(e["l"]):
+                    last[strip(e["l"])["f"]] = txt(e["r"], inl).replace(" ", "")
+        need = {"cumulative_wt_": "(cumulative_wt_+sk.cumulative_wt_)", "wt_max_": "max(wt_max_,sk.wt_max_)", "n_": "(n_+sk.n_)", "k_": "min(k_,sk.k_)"}
+        missing = ["%s (stored: %s)" % (k, last.get(k)) for k, v in need.items() if last.get(k) != v]
+        out.append(ob("ebpps.merge", "ebpps_sketch::internal_merge:accounting", fn["pat"], "discharged" if not missing else "violated", "merge stores n_ + other.n_, the summed cumulative weight, the larger maximum weight and the smaller k" if not missing else "merge does not finally store the expected value of %s: c = min(k, cumulative weight / maximum weight) no longer holds after the merge" % ", ".join(missing), fn["qname"]))
     for f in [g for g in fs.values() if g.get("rect") == R and g["name"] == "merge" and g.get("body") is not None]:
         form = "rvalue" if "&&" in f["params"][0]["t"] else "lvalue"
         st = stmts_of(f["body"])
